@@ -74,8 +74,15 @@ def c06_hist(rng, length, mode):
     return evs
 
 
-def c06_line(cid, evs, mode):
-    return "%s idle=%d resp=%d h=%s" % (cid, 300 if mode == "idle" else 0, 400 if mode == "deadline" else 0, ",".join(evs))
+def c06_line(cid, evs, mode, pad=0):
+    # pad: octets of EDNS0 padding in every query of the case (0 = the ordinary 32-octet query); 230 -> 277-octet,
+    # 500 -> 547-octet, 1100 -> 1147-octet frames: both octets of the TCP length prefix matter (seed C06-I)
+    return "%s idle=%d resp=%d%s h=%s" % (cid, 300 if mode == "idle" else 0, 400 if mode == "deadline" else 0,
+                                         " pad=%d" % pad if pad else "", ",".join(evs))
+
+
+def c06_pad(rng):
+    return rng.choice([0, 0, 0, 0, 0, 0, 208, 209, 210, 500, 1100, 3000])
 
 
 def c06_gen(rng, tier):
@@ -105,10 +112,14 @@ def c06_gen(rng, tier):
     for mode, h in cat:
         out.append(c06_line("b%d" % k, h.split(","), mode))
         k += 1
+    for pad in (208, 209, 210, 464, 465, 500, 1100, 3000, 60000):    # 47 + pad octets: 255, 256, 257, 511, 512 ...
+        for mode, h in (cat[0], cat[4], cat[6], cat[10]):
+            out.append(c06_line("b%d" % k, h.split(","), mode, pad))
+            k += 1
     nplain = budget(tier, 1400, 8000)
     ntimed = budget(tier, 80, 500)
     for i in range(nplain):
-        out.append(c06_line("p%d" % i, c06_hist(rng, rng.randrange(4, budget(tier, 16, 40)), "plain"), "plain"))
+        out.append(c06_line("p%d" % i, c06_hist(rng, rng.randrange(4, budget(tier, 16, 40)), "plain"), "plain", c06_pad(rng)))
     for i in range(ntimed):
         out.append(c06_line("i%d" % i, c06_hist(rng, rng.randrange(4, 12), "idle"), "idle"))
         out.append(c06_line("d%d" % i, c06_hist(rng, rng.randrange(4, 12), "deadline"), "deadline"))
@@ -160,10 +171,11 @@ def c06_stress_gen(rng, tier):
     k = 0
     for rep in range(reps):
         for via, idleus, slow in (("transport", 400, 0), ("transport", 1, 15), ("tcp", 2000, 0), ("udpfb", 0, 0)):
-            out.append("s%d via=%s n=%d conc=%d idleus=%d slowclose=%d cancel=%d split=%d abort=%d delayus=%d seed=%d" % (
+            out.append("s%d via=%s n=%d conc=%d idleus=%d slowclose=%d cancel=%d split=%d abort=%d delayus=%d seed=%d%s" % (
                 k, via, n if via != "udpfb" else n // 3, rng.choice([4, 16, 32]), idleus, slow,
                 rng.choice([10, 30, 60]), rng.choice([0, 20, 50]), rng.choice([0, 3, 10]),
-                rng.choice([50, 300, 1500]), rng.randrange(1, 1 << 30)))
+                rng.choice([50, 300, 1500]), rng.randrange(1, 1 << 30),
+                " pad=%d" % rng.choice([230, 500, 1100]) if rep % 2 == 1 else ""))
             k += 1
     return out
 
